@@ -684,22 +684,20 @@ def _index_rules(chk, pid, S, fi, host, R):
     LP, LV, LN = last_names.get(R.PRICE), last_names.get(R.VALUE), last_names.get(R.NOTIONAL)
     chk.need(LP and LV, "%s no longer snapshots the last price / last value on a date change" % host)
     seen = {"mv": 0, "fi": 0}
-    for w in pw:
+    for w, mode_fi in [(w, m) for w in pw for m in (True, False)]:
+        # one scenario per kind of strategy: the write may sit in the branch of that kind or after the branches have joined
         g = lits(w.guard)
-        is_fi = sym.lit_holds(g, fi_atom, True)
-        not_fi = sym.lit_holds(g, fi_atom, False)
+        if sym.lit_holds(g, fi_atom, not mode_fi):
+            continue
+        mode = [(fi_atom, mode_fi)]
+        is_fi, not_fi = mode_fi, not mode_fi
         V = cur(w, SELF, R.VALUE)
         lp, lv, nf = cur(w, SELF, LP), cur(w, SELF, LV), cur(w, SELF, R.NET_FLOWS)
         base = ("+", lv, nf)
-        if not (is_fi or not_fi):
-            if pid in ("C03", "C17"):
-                chk.ob("C03.R1", False, CORE, host, "index-branch", "the index is multiplicative for market-value strategies and additive for fixed-income ones", where=w.where,
-                       found=sym.fmt_guard(w.guard))
-            continue
         if not_fi and pid == "C03":
             seen["mv"] += 1
             for gv, v, raws in sym.split_cases(w.value, raw=True):
-                gg = GX(w, gv, raws)
+                gg = GX(w, tuple(gv) + tuple(mode), raws)
                 if sym.inconsistent(gg):
                     continue
                 rr = lambda x: sym.restrict(x, gg)
@@ -725,7 +723,7 @@ def _index_rules(chk, pid, S, fi, host, R):
             pnl = ("-", V, base)
             par = sym.num(chk.prog.const_value(CORE, "PAR") or 100.0)
             for gv, v, raws in sym.split_cases(w.value, raw=True):
-                gg = GX(w, gv, raws)
+                gg = GX(w, tuple(gv) + tuple(mode), raws)
                 if sym.inconsistent(gg):
                     continue
                 rr = lambda x: sym.restrict(x, gg)
